@@ -495,3 +495,5 @@ func newKI(key []byte) *KeyInfo {
 func thorough() bool { return verifkit.Thorough() }
 
 var osReadFile = os.ReadFile
+
+var sprintf = fmt.Sprintf
